@@ -2,16 +2,17 @@
 # proxy_agent_shared/src/service.rs + service/linux_service.rs.   Verified target: Linux (cfg(windows) items dropped, E2).
 import os
 HERE = os.path.dirname(os.path.abspath(__file__))
-COMMON = os.path.join(os.path.dirname(HERE), "common")
 
 ASSUMPTIONS = [
-    "abstract file system: a path is its component sequence, equal components = same file (no symlinks / '..' among the tool's locations)",
-    "std::fs::copy / remove_file / remove_dir_all / Path::exists behave as copy_post / remove_post / remove_tree_post / exists (spec.rs), written from the std documentation",
-    "environment faults (I/O error on an existing source, systemctl cannot be spawned, folder cannot be created) set World.fault; positive clauses are stated for fault-free runs, frames hold unconditionally",
-    "PathBuf::from / Path::join are component concatenation (parse_path / path_join)",
+    "abstract file system: a path is its component sequence and equal components name the same file (no symbolic links / '..' among the tool's locations; the setup directory comes from std::env::current_exe); a key of the map is a regular file, directories are implicit",
+    "std::fs::copy / remove_file / remove_dir_all / Path::exists behave as copy_post / remove_post / remove_tree_post / `exists == file present` of spec.rs (written from the std documentation; copy onto itself is excluded by a proved precondition)",
+    "environment faults (I/O error although the source exists, systemctl cannot be spawned, a folder cannot be created) set World.fault: the positive clauses (what a command achieves, service order) are stated for fault-free runs, the frame clauses hold unconditionally",
+    "PathBuf::from / Path::join / Deref are component parsing and concatenation (parse_path / path_join); format!(\"{}.service\", name) is name + \".service\" (E9 contracts)",
+    "a spawned systemctl is an opaque event of the trace: systemd's own bookkeeping (enable/disable symlinks, unmask) is not counted as a file altered by the tool; a stop/start that was issued and returned counts as done (its exit status is ignored by the code)",
     "the tool's own log (logger::write, logger_manager::write_info) is outside the modelled file system",
-    "misc_helpers::get_proxy_agent_version (runs `<agent> --version`) and try_create_folder do not change any file",
-    "process::exit and panic! do not return: no claim is made for runs that end there",
+    "misc_helpers::get_proxy_agent_version (runs `<agent> --version`) changes no file; try_create_folder creates directories only",
+    "process::exit and panic! do not return: no claim is made for runs that end there (unit file cannot be copied, systemctl enable/start fails, version query of the packaged/backed-up agent fails)",
+    "clap argument parsing, logger::init_logger and the banner line of main are not under contract (E5 drops them); the extension's driver (service_main.rs) is not covered",
 ]
 FN_PROPS = {}
 
@@ -92,9 +93,13 @@ def GC(sf, fnpath, lo=None, hi=None):
             continue
         if c["callee"].replace(" ", "") not in GHOSTED:
             continue
-        anchor = sf.s(c["callee_span"][0], c["callee_span"][1]) + "("
-        before = sf.s(lo, c["callee_span"][0])
-        out.append((anchor, before.count(anchor), WA))
+        # vxlib matches a ghost-call anchor against callee names (name == anchor, or name ends with "::anchor" / ".anchor"),
+        # ordinal = position among the matching calls of the range in source order
+        name = c["callee"].replace(" ", "")
+        same = sorted([d for d in it["calls"] if lo <= d["span"][0] and d["span"][1] <= hi and
+                       (d["callee"].replace(" ", "") == name or d["callee"].replace(" ", "").endswith("::" + name)
+                        or d["callee"].replace(" ", "").endswith("." + name))], key=lambda d: d["callee_span"][0])
+        out.append((name, same.index(c), WA))
     return out
 
 
@@ -123,8 +128,6 @@ def build(u):
     s_lm = u.src("proxy_agent_shared/src/logger/logger_manager.rs")
     s_sv = u.src("proxy_agent_shared/src/service.rs")
     s_ls = u.src("proxy_agent_shared/src/service/linux_service.rs")
-    for f in ("str_axioms.rs", "ext_types.rs", "std_string.rs"):
-        u.raw(open(os.path.join(COMMON, f)).read())
     u.raw_file("spec.rs")
     u.raw_file("deps.rs")
     u.raw(lit_lemmas())
@@ -409,13 +412,6 @@ pub broadcast group group_fmt { axiom_fmt_pathbuf, axiom_fmt_path, axiom_fmt_ioe
                 arms[k] = a
     if len(arms) != 5 or len(m["arms"]) != 5:
         raise Undecided("main: expected the five command arms, found %s" % sorted(arms))
-    # work-around: slice_fn's E4 insertion does not drop the ", " after a trailing comma (take_fn does)
-    for c in it["calls"]:
-        j = c["span"][1] - 2
-        while mn.b[j:j + 1] in (b" ", b"\n", b"\t"):
-            j -= 1
-        if mn.b[j:j + 1] == b",":
-            c["args"] = []
     PBA = BU + "broadcast use lemma_push_drop_last;\nproof { lemma_lits(); lemma_names(); lemma_verbs(); lemma_layout(); }\n"
 
     def arm(k, name, params, contract):
